@@ -50,7 +50,14 @@ Further families
             model files, usage errors: no -o / no model path -> exit status 1, nothing written) and the route
             ooaofooa.load_metamodel (one path / two paths) + mk_component.
   pkgref    package references (EP_PKGREF, R1402): the content of a package is also inside the component in which a package
-            referring to it lies; D only (`nomodel`).
+            referring to it lies; D (oracle `py_contained`) and K (the Lean model has the rows: ClassDiagram.pkgrefs).
+  unmirrored (owner-C14 round 8) every second case of every family: the columns of the populated ooaofooa classes that are
+            NO part of the class diagram (`ooa_encoder.UNMIRRORED`: R_ASSR.Mult - the multiplicity of the LINK class of a
+            linked relationship, where the association ends mirror R_AONE / R_AOTH -, C_C.Mult, O_OBJ.Name / Numb,
+            O_ATTR.Prefix / Root_Nam / Pfx_Mode consistent with the persisted Name, default values, parse status of derived
+            attributes, the cached name columns of O_REF / O_RATTR / O_OIDA, visibility, number ranges) hold other values:
+            written into the model file (synthesised diagrams, every entry point) or assigned on the loaded population
+            before the first build / between the builds (real models, sessions).  D and K as for the unchanged diagram.
   Expectations are computed from the INPUT: synthesised cases from the generated diagram, real models from the model FILE read
   by the harness's own statement reader (`ooa_encoder.RawPopulation`), never from the population the library loaded; the
   predefined data types from the text of bridgepoint.schema.globals by the same reader.
@@ -88,14 +95,19 @@ RULE = ('random class diagrams (1-5 classes, 0-6 relationships of every kind inc
         'row: unformalised / incomplete / subtype-less relationships, 24 kinds each generated at least 4 times), twins (second '
         'identifier over the same attributes, same key letters in different components, same relationship number in '
         'different containers) and session (4-14 builds by all routes from ONE loaded population, interleaved with edits, '
-        'XSD generation and mutation of the built component) - see the module docstring')
+        'XSD generation and mutation of the built component) - see the module docstring'
+        # --- owner-C14 round 8
+        '; on every second case of every family the columns of the rows that are no part of the class diagram '
+        '(ooa_encoder.UNMIRRORED: multiplicity of the link class R_ASSR.Mult, C_C.Mult, class name / number, attribute '
+        'prefix / root, default values, cached name columns, visibility ...) hold other values - in the model file, or '
+        'assigned on the loaded population before / between the builds')
 EXHAUSTIVE = {'quick': False, 'thorough': False}
 ASSUMPTIONS = [
     'unresolved populations (a relationship names a class / attribute row that does not exist) are outside the property: '
     'D demands nothing there, K compares the ending (AttributeError) with buildOutcome of the model',
     'domain: well-formed populations — acyclic containment and user-type chains, one R103 chain per class, distinct '
     'key letters / attribute names per class / relationship numbers / component names, formalised simple relationships, '
-    'every relationship in scope has its classes in scope, referred identifiers consist of kept attributes; EP_PKGREF package references are not in the Lean model: family pkgref checks them by D only (oracle ooa_encoder.py_contained)',
+    'every relationship in scope has its classes in scope, referred identifiers consist of kept attributes; EP_PKGREF package references are in the Lean model (ClassDiagram.pkgrefs; acyclic containment + reference graph): family pkgref is judged by D (oracle ooa_encoder.py_contained) and compared by K',
     'names are SQL identifiers (reload) and phrases contain no quote: lexical matters belong to C01/C12',
     'family rows: a scope holding a relationship with missing rows / no or two subtype rows is outside the property (D demands '
     'nothing, K compares the ending); at most one such relationship per scope (which exception comes first depends on the '
@@ -281,6 +293,41 @@ def _valid_script(d, name, edits):
     return st[0] == 'ok' and E.scope_valid(cur, st[1])
 
 
+# --- owner-C14 round 8: family `unmirrored` - the columns of the ooaofooa rows that are NO part of the class diagram
+# (ooa_encoder.UNMIRRORED: R_ASSR.Mult - the multiplicity of the LINK class of a linked relationship -, C_C.Mult, class
+# names / numbers beside the key letters, attribute prefix / root, default values, cached name columns, visibility ...)
+# take other values: on every second case of every family.  Synthesised diagrams carry the seed as d['unmirrored'] (the
+# values are written into the model file, so every entry point sees them); real models as case['unmirrored'] (assigned
+# on the loaded population: even seed before the first build, odd seed between the two builds, together with the
+# edits).  The diagram - hence the specification D and the model K - is unchanged by construction.
+def _unmirrored(r, d=None):
+    seed = r.fork('unmirrored').randint(1, 1 << 30)
+    if d is not None:
+        d['unmirrored'] = seed
+    return seed
+
+
+def _wrap_generate(gen):
+    def generate(ctx):
+        n = 0
+        for case in gen(ctx):
+            n += 1
+            if n % 2 == 0 and not case.get('unresolved'):
+                r = ctx.rng.fork('unmirrored-case', n)
+                if case['src'] == 'synth' and case['diagram'].get('unmirrored') is None:
+                    case['diagram'] = dict(case['diagram'])
+                    _unmirrored(r, case['diagram'])
+                    if case.get('family') == 'session':
+                        # ... and once more, with other values, on the loaded population between two builds
+                        k = r.randint(1, len(case['steps']) - 1)
+                        case['steps'] = case['steps'][:k] + [['unmirrored', r.randint(1, 1 << 30)]] + case['steps'][k:]
+                elif case['src'] == 'real' and case['entry'] == 'mk':
+                    case['unmirrored'] = _unmirrored(r)
+            yield case
+    return generate
+# --- end owner-C14 round 8
+
+
 def generate(ctx):
     rng = ctx.rng.fork('gen')
     # ---- real models: every single edit at every site, whole model and each component, both flags
@@ -330,7 +377,7 @@ def generate(ctx):
                'entry': r.choice(['mk', 'mk', 'build', 'main']), 'perm': r.randint(1, 1 << 30), 'labels': labels,
                'audit': j % 3 == 0}
     # ---- package references (EP_PKGREF, R1402): the content of a package is also inside the component in which a package
-    #      REFERRING to it lies.  The Lean model has no package references: D only (oracle `py_contained`).
+    #      REFERRING to it lies.  D (oracle `py_contained`) and K (the Lean model follows the EP_PKGREF rows as well).
     for j in range(ctx.pick(70, 600)):
         r = rng.fork('pkgref', j)
         base = E.gen_diagram(r, max_classes=4)
@@ -341,7 +388,8 @@ def generate(ctx):
             continue
         entry = r.choice(['mk', 'build', 'main', 'load'])
         yield {'src': 'synth', 'diagram': d, 'comp': r.choice(gained), 'drv': r.random() < 0.5 and entry != 'load', 'edits': [],
-               'entry': entry, 'perm': r.randint(1, 1 << 30), 'audit': j % 3 == 0, 'nomodel': True}
+               'entry': entry, 'perm': r.randint(1, 1 << 30), 'audit': j % 3 == 0}
+        # --- pkgref-in-model: no 'nomodel' any more - the Lean model has the EP_PKGREF rows (ClassDiagram.pkgrefs), K compares
     # ---- the command line of gen_sql_schema (long / joined / = spellings, -v, several model paths, usage errors) and the
     #      ooaofooa.load_metamodel route
     styles = ['long', 'eq', 'verbose', 'joined', 'split', 'split', 'no-output', 'no-model']
@@ -478,6 +526,9 @@ def generate(ctx):
                    'entry': 'sqltext', 'perm': None}
 
 
+generate = _wrap_generate(generate)         # --- owner-C14 round 8: every second case with other unmirrored columns
+
+
 # --------------------------------------------------------------------------- implementation side
 
 def _diagram_of(case):
@@ -522,14 +573,25 @@ def run_impl(case):
     fails = []
     stats = {'src_' + case['src']: 1, 'entry_' + entry: 1, 'edits': len(edits),
              'comp_' + ('none' if name is None else 'named'): 1, 'derived_' + str(drv): 1}
+    stats['unmirrored'] = int(bool(case.get('unmirrored') or d0.get('unmirrored')))     # --- owner-C14 round 8
     for e in edits:
         stats['edit_' + e[0]] = stats.get('edit_' + e[0], 0) + 1
     for r in d0['rels']:
         stats['rel_' + r['kind'][0]] = stats.get('rel_' + r['kind'][0], 0) + 1
+    # --- pkgref-in-model begin
+    if d0.get('pkgrefs'):
+        stats['pkgref_rows'] = len(d0['pkgrefs'])
+        stats['pkgref_cases_model_compared'] = 0 if case.get('nomodel') else 1
+    # --- pkgref-in-model end
 
     def fail(sig, what):
-        fails.append({'sig': sig, 'what': '%s [component=%r derived=%r entry=%s edits=%s]' % (
-            what, name, drv, entry, json.dumps(edits))})
+        um = case.get('unmirrored') or d0.get('unmirrored')                 # --- owner-C14 round 8
+        fails.append({'sig': sig, 'what': '%s [component=%r derived=%r entry=%s edits=%s]%s' % (
+            what, name, drv, entry, json.dumps(edits),
+            '' if not um else ' [columns outside the class diagram (ooa_encoder.UNMIRRORED, e.g. R_ASSR.Mult) hold other '
+            'values, seed %d: %s]' % (um, 'in the model file' if d0.get('unmirrored') else
+                                      'assigned before the first build' if um % 2 == 0 else
+                                      'assigned after the first build, with the edits'))})
 
     if case.get('family') == 'rows':
         return _run_rows(case, stats)
@@ -582,9 +644,14 @@ def run_impl(case):
                 c_c = m.select_any('C_C', xtuml.where_eq(Name=name)) if name is not None else None
                 if name and c_c is None:
                     raise ooaofooa.OoaOfOoaException('no such component (harness)')
+                um = case.get('unmirrored')                 # --- owner-C14 round 8 (real models; see _wrap_generate)
+                if um and um % 2 == 0:
+                    E.pop_set_unmirrored(m, um)
                 got0 = E.canon_metamodel(ooaofooa.mk_component(m, c_c, drv))
                 got1 = got0
-                if edits:
+                if edits or (um and um % 2):                # --- owner-C14 round 8: odd seed = between the two builds
+                    if um and um % 2:
+                        E.pop_set_unmirrored(m, um)
                     for e in edits:
                         E.pop_apply_edit(m, e)
                     c_c = m.select_any('C_C', xtuml.where_eq(Name=name)) if name is not None else None
@@ -776,6 +843,9 @@ def _run_session(case, stats):
             if st[0] == 'xsd':
                 c_c = m.select_any('C_C', xtuml.where_eq(Name=st[1]))
                 gen_xsd_schema.build_schema(m, c_c)
+                continue
+            if st[0] == 'unmirrored':               # --- owner-C14 round 8: other values in the unmirrored columns
+                E.pop_set_unmirrored(m, st[1])
                 continue
             if st[0] == 'mutate':
                 if last is not None:
